@@ -115,6 +115,7 @@ func RunCheck(o CheckOpts) int {
 			}
 			fi.File = fmt.Sprintf("%s:%d", strings.TrimPrefix(p0.Filename, o.RepoDir+"/"), p0.Line)
 		}
+		E.Quick = o.Tier != "thorough"
 		err := E.VerifyFunc(k, []string{o.Prop})
 		if E.cur != nil {
 			fi.Paths = E.cur.paths
@@ -264,6 +265,17 @@ func RunCheck(o CheckOpts) int {
 	for _, n := range E.Notes {
 		assumptions = append(assumptions, "note: "+n)
 	}
+	if len(E.Deferred) > 0 {
+		seen := map[string]bool{}
+		n := 0
+		for _, d := range E.Deferred {
+			if !seen[d] {
+				seen[d] = true
+				n++
+			}
+		}
+		assumptions = append(assumptions, fmt.Sprintf("quick tier: %d obligation sites of clauses marked [slow] are assumed here and proved by the thorough tier only", n))
+	}
 	for _, a := range E.CS.Assumed {
 		assumptions = append(assumptions, "assumed in a contract file (not proved): "+a)
 	}
@@ -278,8 +290,41 @@ func RunCheck(o CheckOpts) int {
 		"slice/string lengths are at most 2^48 (runtime maxAlloc)",
 		"package-level variables are constant after init",
 		"no liveness/termination unless a decreases clause is discharged")
+	// thorough tier: every stored witness of the property (the inputs / schedules that exposed
+	// the defects found so far, plus boundary cases) is replayed against the real code; a
+	// confirmed failure is a violation with a concrete failing input.
+	var replays []map[string]interface{}
+	if o.Tier == "thorough" && os.Getenv("VERIF_NO_REPLAY") == "" {
+		if cfg := loadReplayCfg(o.VerifDir, o.Prop); cfg != nil {
+			for _, sw := range cfg.Witnesses {
+				cfgc := *cfg
+				if sw.Driver != nil {
+					cfgc.Driver = *sw.Driver
+				}
+				ok, out, cmd := RunDriver(o.RepoDir, o.VerifDir, o.Prop, &cfgc, sw.Witness)
+				replays = append(replays, map[string]interface{}{"witness": sw.Name, "confirmed_failure": ok, "cmd": cmd})
+				if ok {
+					violations++
+					rp := filepath.Join(o.VerifDir, "out", "replay", o.Prop, "stored-"+sw.Name+".json")
+					_ = os.MkdirAll(filepath.Dir(rp), 0o755)
+					rb, _ := json.MarshalIndent(map[string]interface{}{"property": o.Prop, "obligation": "replay:" + sw.Name, "witness": sw.Witness,
+						"driver": map[string]interface{}{"confirmed": true, "cmd": cmd, "output": out}}, "", " ")
+					_ = os.WriteFile(rp, rb, 0o644)
+					lines = append(lines, fmt.Sprintf("VIOLATION property=%s replay=%s obligation=replay:%s status=failing-input-confirmed", o.Prop, rp, sw.Name))
+				}
+			}
+		}
+	}
+	var canaries interface{}
+	if f := os.Getenv("VERIF_CANARY_FILE"); f != "" {
+		if cb, err := os.ReadFile(f); err == nil {
+			_ = json.Unmarshal(cb, &canaries)
+		}
+	}
 	ev := map[string]interface{}{
 		"property_id": o.Prop,
+		"canaries":    canaries,
+		"replayed_witnesses": replays,
 		"tier":        o.Tier,
 		"seed":        o.Seed,
 		"level":       "proof",
